@@ -130,15 +130,25 @@ func jsonLeaves(p []byte) []leaf {
 
 // attribute construction from the script's integer encoding: [k, v] with v > 0 a scalar,
 // v < 0 the group number -v of the script's group table.
+// Group values are built ONCE per (key, group number) and then shared: by loggers, by calls and by
+// the different parent groups that hold the same sub-group - as a program does that keeps a
+// prepared group around.
+var coreGroupObjs = map[[2]int]slog.Attr{}
+
 func (r *coreRun) mkAttr(k, v int) slog.Attr {
 	if v >= 0 {
 		return slog.Int(attrName(k), v)
+	}
+	if g, ok := coreGroupObjs[[2]int{k, v}]; ok {
+		return g
 	}
 	var members []slog.Attr
 	for _, m := range r.sc.Groups[-v-1] {
 		members = append(members, r.mkAttr(m[0], m[1]))
 	}
-	return slog.NewGroupedAttr(attrName(k), members...)
+	g := slog.NewGroupedAttr(attrName(k), members...)
+	coreGroupObjs[[2]int{k, v}] = g
+	return g
 }
 
 type ctxKeyStringer int
